@@ -3,6 +3,7 @@ package mid2
 import (
 	"encoding/json"
 
+	"example.test/p1/conf"
 	"example.test/p1/leaf"
 )
 
@@ -25,6 +26,9 @@ func Encode(id int, l leaf.Leaf) string {
 	}
 	return string(b)
 }
+
+// Limit exposes a value of the call-free package conf.
+func Limit() int { return conf.Limit + int(conf.Default) }
 
 func Decode(s string) (Rec, error) {
 	var r Rec
